@@ -22,7 +22,9 @@ TEXT_DELIM = ["a,b", "comma, space", ",lead", "trail,"]
 TEXT_QUOTE = ['say "hi"', '"quoted"', 'a""b', '"']
 TEXT_BREAK = ["line1\nline2", "cr\rlf", "crlf\r\nend", "\n"]
 NUMS = ["0", "12", "-7", "+3", "3.25", "-0.5", "1,234", "1,234,567.89", "1e5", "2.5E-3", "1_000", " 42 ", "٣", "007", ".5", "5.", "1e-7", "123456789012345",
-        "9.1093837e-31", "-1.602176634e-19", "2.5E-16", "0.000000123456789012", "1e22", "6.02214076e23", "-0.0"]
+        "9.1093837e-31", "-1.602176634e-19", "2.5E-16", "0.000000123456789012", "1e22", "6.02214076e23", "-0.0",
+        # whole numbers far beyond 2^112 (the width of a decimal128 coefficient is 34 digits)
+        "6e40", "-7.5e35", "9" + "0" * 33, "8.25e300", "5.2e33", "1e40", "7e34", "99e33"]
 SPECIAL = ["nan", "NaN", "inf", "-inf", "Infinity", "-INFINITY", "+nan", "1e400", "-1e999", "iNf"]
 WS_TEXTS = ["  padded  ", "double  space", " lead", "trail ", "a \t b"]
 
